@@ -58,6 +58,18 @@ func c01Class(it *c01Item, mode string, goRes string) string {
 		return c01HotDynAssign
 	}
 
+	for _, c := range []string{c01ClsNestedRangeRet, c01ClsUintWide, c01ClsCloShadow, c01ClsRangeLeak, c01ClsLoopShadow} {
+		if it.feats[c] {
+			return c
+		}
+	}
+
+	for _, k := range c01StructKinds {
+		if it.feats[c01ClsStructCopy+k] {
+			return c01ClsStructCopy + k
+		}
+	}
+
 	return "ego-differs-from-go:" + mode
 }
 
@@ -92,6 +104,18 @@ func TestVerifC01(t *testing.T) {
 		g := c01Generate(r, hot)
 		id := fmt.Sprintf("p%04d", len(items))
 		items = append(items, &c01Item{id: id, src: g.body(), gen: g.goBody(id + "_"), lean: g.leanTokens(), feats: g.feats, hot: hot})
+	}
+
+	// struct-value programs (source text only — no Lean table), every copy site in turn
+	ns := 7 * ((n/5 + 6) / 7)
+	rs := verifh.Rand(102)
+
+	for i := 0; i < ns; i++ {
+		kind := c01StructKinds[i%len(c01StructKinds)]
+		text := c01GenStruct(rs, kind)
+		id := fmt.Sprintf("p%04d", len(items))
+		items = append(items, &c01Item{id: id, src: strings.ReplaceAll(text, "§", ""), gen: strings.ReplaceAll(text, "§", id+"_"),
+			feats: c01StructFeats(strings.ReplaceAll(text, "§", ""))})
 	}
 
 	srcs := map[string]string{}
